@@ -29,6 +29,12 @@ FATAL = [errno.EPIPE, errno.ECONNRESET, errno.ENOTCONN, errno.ETIMEDOUT, errno.E
 assert (errno.EINTR, errno.EAGAIN, errno.EWOULDBLOCK, errno.ENOBUFS, errno.EPIPE, errno.ENOTCONN) == (4, 11, 11, 105, 32, 107)
 BIG = 10 ** 9
 KINDS = ['tcpserver', 'unixserver', 'tcpclient', 'unixclient', 'file']
+MIB = 1 << 20
+# payloads above this size are run oracle-only (exact bytes are compared on the python side; the Coq model works on
+# explicit byte lists and is compared up to ~2 MB): see notes/C11.md
+MODEL_MAX_PAYLOAD = 2200000
+LARGE_SIZES = [1, 4 * MIB - 1, 4 * MIB, 4 * MIB + 1, 5 * MIB + 12345, 9 * MIB]
+LARGE_SCRIPTS = ['all', 'k:%d' % (MIB + 3), 'k:%d' % (4 * MIB), 'k:%d' % (4 * MIB + 1), 'eagain']
 MODEL_KIND = {'tcpserver': 'Server', 'unixserver': 'Server', 'tcpclient': 'Client', 'unixclient': 'Client', 'file': 'File'}
 
 
@@ -362,16 +368,28 @@ def op_object(o):
 _RUN = re.compile(rb'(.)\1*', re.S)
 
 
+_NOT = {}
+
+
+def _not_byte(b):
+    r = _NOT.get(b)
+    if r is None:
+        r = _NOT[b] = re.compile(b'[^' + re.escape(bytes([b])) + b']', re.S)
+    return r
+
+
 def rle_fast(data):
     """run-length encoding; long inputs (few long runs by construction) are cut run by run at C speed"""
     data = bytes(data)
     if len(data) < 2048:
         return [[m.group(1)[0], m.end() - m.start()] for m in _RUN.finditer(data)]
-    out, view = [], data
-    while view:
-        rest = view.lstrip(view[:1])
-        out.append([view[0], len(view) - len(rest)])
-        view = rest
+    out, pos, n = [], 0, len(data)
+    while pos < n:
+        b = data[pos]
+        m = _not_byte(b).search(data, pos)      # first position holding another byte: a scan, no copy
+        end = m.start() if m else n
+        out.append([b, end - pos])
+        pos = end
     return out
 
 
@@ -440,7 +458,12 @@ def run_case(c):
                 rec['closed'] = bool(s.is_closed)
                 rec['writing'] = bool(rig.poller.isWriting(s))
                 it = rig.internals(conn)
-                rec['int'] = None if it is None else [rle_fast(it[0]), bool(it[1])]
+                if it is None:
+                    rec['int'] = None
+                elif len(it[0]) > MODEL_MAX_PAYLOAD:      # only its length is looked at: keep a one-run summary
+                    rec['int'] = [[[it[0][0], len(it[0])]], bool(it[1])]
+                else:
+                    rec['int'] = [rle_fast(it[0]), bool(it[1])]
                 recs.append(rec)
         return {'recs': recs}
     finally:
@@ -478,7 +501,9 @@ class C11(Prop):
     imports = ['Model.StreamWrite', 'Model.StreamWriteObs']
     quick_n = 450
     thorough_n = 5000
-    rule = ('real TCPServer/UNIXServer (1 or 2 accepted connections, interleaved), TCPClient/UNIXClient and File '
+    rule = ('[payloads > 2.2 MB (4 MiB-1 .. 9 MiB; accept-all / k bytes per call / EAGAIN-then-all) are run oracle-only with exact byte '
+            'comparison; everything else is also compared with the Coq model] '
+            'real TCPServer/UNIXServer (1 or 2 accepted connections, interleaved), TCPClient/UNIXClient and File '
             'components driven in-process with a scripted send()/fd_write double and the real BasePoller bookkeeping; '
             'ops = write payload (empty ... multi-megabyte, distinct bytes) / close (also server-wide close) / writability '
             'tick with outcome accept-k | EAGAIN,EINTR,ENOBUFS | EPIPE,ECONNRESET,ENOTCONN,ETIMEDOUT,EIO,ENOSPC, close at a '
@@ -667,9 +692,47 @@ class C11(Prop):
                 ops.append(['o', None, 0])
                 ops += self._stream(rng, ctr, 0, False, kind)
             cases.append({'kind': kind, 'nconn': nconn, 'ops': ops})
+        for i in range(6 if tier == 'quick' else 40):
+            cases.append(self._large_case(rng, KINDS[i % len(KINDS)] if i < 5 else rng.choice(KINDS),
+                                          rng.choice(LARGE_SIZES[1:]), rng.choice(LARGE_SCRIPTS)))
         for c in cases:
             self._count(c)
         return cases
+
+    @staticmethod
+    def large_case(kind, size, script, cutpoints, before, close_at, fills=(201, 202, 203)):
+        """one multi-megabyte payload (described by fill runs, never by content) between two small marker payloads, under
+        an acceptance script: 'all' (the OS takes whatever it is offered), 'k:<n>' (n bytes per send call), 'eagain'
+        (one refusal, then everything)"""
+        cuts = sorted(set(min(max(1, x), size) for x in cutpoints)) if size > 1 else []
+        runs, prev = [], 0
+        for j, x in enumerate(cuts + [size]):
+            if x > prev:
+                runs.append([fills[j % len(fills)], x - prev])
+                prev = x
+        ops = []
+        if before:
+            ops.append(['w', [[11, 3]], 0])
+        ops.append(['w', runs, 0])
+        ops.append(['w', [[12, 2], [13, 1]], 0])
+        total = size + 3 + (3 if before else 0)
+        nw = len(ops)
+        if script == 'all':
+            ticks = []
+        elif script == 'eagain':
+            ticks = [['t', ['e', errno.EAGAIN], 0]]
+        else:
+            k = int(script[2:])
+            ticks = [['t', ['a', k], 0] for _ in range(total // k + nw + 1)]
+        if close_at is not None:
+            ticks.insert(min(close_at, len(ticks)), ['c', None, 0])
+        ops += ticks
+        ops += [['t', ['a', BIG], 0] for _ in range(nw + 1)]
+        return {'kind': kind, 'nconn': 1, 'ops': ops}
+
+    def _large_case(self, rng, kind, size, script):
+        return self.large_case(kind, size, script, [rng.randint(1, size), rng.randint(1, size)], rng.random() < 0.5,
+                               rng.choice([None, 0, 1, 3]), [rng.randint(100, 250) for _ in range(3)])
 
     def _count(self, c):
         st = self.stats
@@ -697,7 +760,7 @@ class C11(Prop):
                     bs = op_bytes(o)
                     t = 'str-ascii' if len(bs) == len(o[1]) else 'str-multibyte'
                 st['payload_types'][t] = st['payload_types'].get(t, 0) + 1
-                b = '0' if L == 0 else '1-8' if L <= 8 else '9-4096' if L <= 4096 else '4097-65535' if L < 65536 else '64K-1M' if L < (1 << 20) else '>=1M'
+                b = '0' if L == 0 else '1-8' if L <= 8 else '9-4096' if L <= 4096 else '4097-65535' if L < 65536 else '64K-1M' if L < (1 << 20) else '1M-4M' if L < 4 * MIB else '>=4M'
                 st['payload_sizes'][b] = st['payload_sizes'].get(b, 0) + 1
                 st['max_payload'] = max(st['max_payload'], L)
             else:
@@ -777,6 +840,8 @@ class C11(Prop):
     def model_term(self, c):
         if c.get('_nomodel'):
             return None
+        if any(o[0] == 'w' and payload_len(o[1]) > MODEL_MAX_PAYLOAD for o in c['ops']):
+            return None          # multi-MiB payloads: oracle only (exact bytes, python side)
         nconn, server = self._conns(c)
         parts = []
         if any(o[0] == 'o' for o in c['ops']):
